@@ -6,7 +6,7 @@
 // ------------------------------------------------------------------------
 
 use super::{BerDecoder, BerHeader, SnmpOid, TAG_RELATIVE_OID, Tag};
-use crate::error::SnmpResult;
+use crate::error::{SnmpError, SnmpResult};
 
 #[derive(Debug, PartialEq, Clone)]
 pub struct SnmpRelativeOid<'a>(&'a [u8]);
@@ -25,7 +25,18 @@ impl<'a> BerDecoder<'a> for SnmpRelativeOid<'a> {
 impl SnmpRelativeOid<'_> {
     /// Apply relative oid to absolute one
     /// and return normalized absolute oid
+    #[cfg(test)]
     pub fn normalize<'a>(&self, oid: &SnmpOid) -> SnmpOid<'a> {
+        self.try_normalize(oid).expect("valid relative oid")
+    }
+    /// Apply relative oid to absolute one
+    /// and return normalized absolute oid.
+    /// Malformed input yields an error.
+    pub fn try_normalize<'a>(&self, oid: &SnmpOid) -> SnmpResult<SnmpOid<'a>> {
+        // Both parts must be present
+        if self.0.is_empty() || oid.0.is_empty() {
+            return Err(SnmpError::InvalidData);
+        }
         // Number of subelements
         let rel_si = SnmpRelativeOid::subelements(self.0);
         // Number of subelements in base. First octet holds 2 subidentifiers.
@@ -38,16 +49,24 @@ impl SnmpRelativeOid<'_> {
             let mut r = Vec::with_capacity(oid.0.len() + self.0.len());
             r.extend_from_slice(&oid.0[..offset]);
             r.extend_from_slice(self.0);
-            SnmpOid::from(r)
+            Ok(SnmpOid::from(r))
         } else {
             // Replace fully
             // First value is collapsed to one
+            if self.0.len() < 2 {
+                return Err(SnmpError::InvalidData);
+            }
             let mut r = Vec::with_capacity(self.0.len() - 1);
             // Collapse first two values into one octet
-            r.push(self.0[0] * 40 + self.0[1]);
+            r.push(
+                self.0[0]
+                    .checked_mul(40)
+                    .and_then(|x| x.checked_add(self.0[1]))
+                    .ok_or(SnmpError::InvalidData)?,
+            );
             // Push others
             r.extend_from_slice(&self.0[2..]);
-            SnmpOid::from(r)
+            Ok(SnmpOid::from(r))
         }
     }
     // Calculate number of subelements
